@@ -2521,7 +2521,7 @@ impl<'a> Run<'a> {
         match op {
             Op::CreateFile { via, path, .. } | Op::CreateDir { via, path, .. } | Op::OpenFile { via, path, .. } | Op::OpenDir { via, path, .. } | Op::Remove { via, path } => (vec![abs(*via, path)], all_handles),
             Op::Rename { via, src, dvia, dst } => (vec![abs(*via, src), abs(*dvia, dst)], vec![]),
-            Op::Read { h, .. } | Op::Write { h, .. } | Op::Seek { h, .. } | Op::Truncate { h } | Op::Flush { h } | Op::FlushRetry { h, .. } | Op::SetTimes { h, .. } | Op::CloseFile { h } | Op::Extents { h } => (vec![], hp(*h)),
+            Op::Read { h, .. } | Op::Write { h, .. } | Op::WriteRetry { h, .. } | Op::Seek { h, .. } | Op::Truncate { h } | Op::Flush { h } | Op::FlushRetry { h, .. } | Op::SetTimes { h, .. } | Op::CloseFile { h } | Op::Extents { h } => (vec![], hp(*h)),
             Op::Remount { .. } => (vec![], all_handles),
             _ => (vec![], vec![]),
         }
